@@ -900,6 +900,17 @@ func (*c11) Corpus() []any {
 			Deps: []vDep{{Name: "suba", Version: "*", Alias: "a1"}, {Name: "suba", Version: "*", Alias: "a2"}}},
 		Vals: tbl("a2", tbl("g1", tbl("enabled", false)), "tags", tbl("t1", true), "global", tbl("g", 7.0),
 			"a1", tbl("g1", tbl("l1", tbl("u", 5.0))))})
+	// false alarm of the first version of oracle (f), kept as a witness: subc is required twice, as c1
+	// and under an alias that is also the name of an unlisted chart directory (subb); removing the
+	// import-values of subc's own requirement changes BOTH copies, also the one rendered as top/charts/subb
+	out = append(out, c11Case{Kind: "corpus",
+		Chart: &vChart{Name: "top", Version: "1.0.0", Values: tbl(),
+			Charts: []*vChart{leaf("subb", tbl("k", 1.0)),
+				{Name: "subc", Version: "1.0.0", Values: tbl("gcb", tbl("exports", tbl("data", tbl("imp", true, "x", 3.0)))),
+					Charts: []*vChart{leaf("gcb", tbl("n", 2.0))},
+					Deps:   []vDep{{Name: "gcb", Version: "~1.0", Imports: []any{map[string]any{"child": "exports.data", "parent": "."}}}}}},
+			Deps: []vDep{{Name: "subc", Version: "~1.0", Alias: "c1"}, {Name: "subc", Version: ">=1.0.0", Alias: "subb"}}},
+		Vals: tbl("subb", tbl("x", "a"))})
 	return out
 }
 
@@ -1445,6 +1456,31 @@ type c11Loc struct {
 func c11Locs(c c11Case, tree *c11Node) (locs []c11Loc, shared map[*vChart]bool) {
 	shared = map[*vChart]bool{}
 	seen := map[*vChart]int{}
+	// a chart directory selected by more than one requirement of its parent is processed once per
+	// requirement (also under names this walk cannot attribute): it and everything below it is shared
+	var markShared func(d *vChart)
+	markShared = func(d *vChart) {
+		shared[d] = true
+		for _, s := range d.Charts {
+			markShared(s)
+		}
+	}
+	var scan func(d *vChart)
+	scan = func(d *vChart) {
+		for _, s := range d.Charts {
+			n := 0
+			for _, r := range d.Deps {
+				if r.Name == s.Name && chartutil.IsCompatibleRange(r.Version, s.Version) {
+					n++
+				}
+			}
+			if n > 1 {
+				markShared(s)
+			}
+			scan(s)
+		}
+	}
+	scan(c.Chart)
 	var walk func(d *vChart, n *c11Node, idx []int, keys []string, dir string, anc []*vChart)
 	walk = func(d *vChart, n *c11Node, idx []int, keys []string, dir string, anc []*vChart) {
 		locs = append(locs, c11Loc{desc: d, node: n, idx: idx, keys: keys, dir: dir, anc: anc})
@@ -1770,7 +1806,13 @@ func c11ImportChecks(c c11Case, base c11Run) []string {
 			// an import lands at the named parent path (the string form: at the root of the parent's
 			// values): with nothing else writing there, every plain value of the child's table is seen by
 			// the root at parent.path
-			if len(l.keys) == 0 && nImp == 1 && len(r.Imports) == 1 && view != nil {
+			resolved := false // a chart was found for the requirement (name and version constraint)
+			for i := range l.node.Kids {
+				if l.node.Kids[i].Name == c11DepKey(r) {
+					resolved = true
+				}
+			}
+			if len(l.keys) == 0 && nImp == 1 && len(r.Imports) == 1 && view != nil && resolved {
 				cs, ps := "", ""
 				switch t := r.Imports[0].(type) {
 				case string:
@@ -1901,6 +1943,9 @@ func c11DepthChecks(c c11Case, base c11Run) []string {
 		r := c11Pipeline(c.Chart, v, nil)
 		if r.Stage == "ok" && sameShape(base, r) {
 			for p, view := range r.Rendered {
+				if strings.Contains(strings.TrimSuffix(p, "/"+probeTemplate), ".") {
+					continue // K-C11-1: a chart whose name contains a dot has an empty scope
+				}
 				m, _ := view.(map[string]any)
 				if x, ok := lookupPath(m, []string{"global", "zzw"}); !ok || !jsonEq(x, float64(7)) {
 					out = append(out, "ancestor-global-does-not-win-in:"+p)
